@@ -7,7 +7,7 @@ import os
 import shutil
 
 from harness import wbgen
-from harness.common import canon, dec_val, enc_val, ensure_impl_on_path, same
+from harness.common import canon, dec_val, enc_val, ensure_impl_on_path, known_predicate, same
 
 GEN_MODULES = ['excelutil', 'aggregates', 'stats']
 
@@ -16,6 +16,16 @@ ASSUMPTIONS = [
     "ValueError for the others by design); values written to the inputs come from the clean pool",
     "the save/load leg goes through yml, json or pkl files in the check's work directory",
 ]
+
+
+# New finding, reported to the coordinator; INERT until it is entered in known_findings.json (no case with
+# call='trim-range-input' is generated): an input given as a range protects only the dependants of the range
+# node, a formula reading a member cell directly is frozen and goes stale (coq/Refuted/C08_range_input.v).
+#   A1=1, A2=2, A3==A1+10, A4==SUM(A1:A2)+A3; trim_graph(['S!A1:A2'], ['S!A4']); set_value('S!A1:A2', (5, 7));
+#   evaluate('S!A4') -> 12, untrimmed 27
+@known_predicate('C08-range-input')
+def _range_input(case):
+    return case.get('call') == 'trim-range-input'
 
 
 def ancestors(wb, n):
@@ -42,6 +52,7 @@ def run(ctx):
         "trimmed before vs after the first evaluate; distinct = distinct (workbook, inputs, outputs)")
     nwb = ctx.n(200, 2000)
     model_batch = []
+    refused_batch = []
     for k in range(nwb):
         wb = wbgen.gen_workbook(rng, ncells=rng.randrange(5, 9), pool=wbgen.CLEAN_POOL + [0, 1, None])
         desc = [(x['addr'], x.get('value'), x.get('text')) for x in wb.nodes]
@@ -78,10 +89,19 @@ def run(ctx):
             except ValueError as exc:
                 # an input without a path to the outputs: documented refusal
                 ctx.histogram['refused'] = ctx.histogram.get('refused', 0) + 1
+                refused_batch.append((case, wb, ins, outs, early))
                 continue
             except Exception as exc:      # noqa: BLE001
                 ctx.violation(case, f"trim_graph raises {type(exc).__name__}: {exc}"[:200])
                 continue
+            # what the trim left behind (for the correspondence with Model/Trim.v)
+            after = dict(
+                kept=sorted(i for i, x in enumerate(wb.nodes) if x['addr'] in trimmed.cell_map),
+                frozen=sorted(i for i in wb.formulas() if wb.nodes[i]['addr'] in trimmed.cell_map
+                              and not trimmed.cell_map[wb.nodes[i]['addr']].formula),
+                snap=wbgen.snapshot(trimmed, wb), extra=sorted(a for a in trimmed.cell_map
+                                                               if wb.index_of(a) is None))
+            full_ops, per_round = [], []
             ext = rng.choice(['yml', 'json', 'pkl'])
             stem = os.path.join(ctx.work, f'trim{k}_{ci}')
             try:
@@ -106,7 +126,10 @@ def run(ctx):
                         for i, v in assign.items():
                             if comp_name == 'untrimmed' and wb.nodes[i]['addr'] not in comp.cell_map:
                                 comp.evaluate(wb.nodes[i]['addr'])
+                                full_ops.append(([0, i], False))
                             comp.set_value(wb.nodes[i]['addr'], v)
+                            if comp_name == 'untrimmed':
+                                full_ops.append(([1, i, enc_val(v)], False))
                     except Exception as exc:      # noqa: BLE001
                         ctx.violation(dict(case, leg=comp_name, assign={wb.nodes[i]['addr']: v for i, v in assign.items()}),
                                       f"set_value on the {comp_name} model raises {type(exc).__name__}: {exc}"[:200])
@@ -118,12 +141,112 @@ def run(ctx):
                         res[comp_name] = [canon(comp.evaluate(a)) for a in out_addrs]
                     except Exception as exc:      # noqa: BLE001
                         res[comp_name] = f'{type(exc).__name__}: {exc}'[:120]
+                full_ops.extend(([0, o], True) for o in outs)
+                per_round.append(dict(res))
                 for leg in ('trimmed', 'loaded'):
                     if leg in res and res[leg] != res['untrimmed']:
                         ctx.violation(dict(case, leg=leg, early=early,
                                            assign={wb.nodes[i]['addr']: v for i, v in assign.items()}),
                                       f"outputs of the {leg} model differ from the untrimmed model",
                                       impl=res[leg], expected=res['untrimmed'])
-            model_batch.append((case, wb, ins, outs, early, rounds, res.get('trimmed')))
-    shutil.rmtree(ctx.work, ignore_errors=True)
+            model_batch.append((case, wb, ins, outs, early, rounds, per_round, after, full_ops))
     ctx.extra['model_trim_cases'] = len(model_batch)
+    correspondence(ctx, model_batch, refused_batch)
+    shutil.rmtree(ctx.work, ignore_errors=True)
+
+
+def model_value(x):
+    """model value -> the canonical form evaluate() returns (range results with trimmed dimensions)"""
+    from harness.props.c01 import canon_model, trim
+    return trim(canon_model(dec_val(x)))
+
+
+def trim_call(wb, ins, outs, early, rounds):
+    pre = [] if early else [[0, o] for o in outs]
+    return ('trim', [wb.wire(), pre, list(ins), list(outs),
+                     [[[i, enc_val(v)] for i, v in r.items()] for r in rounds]])
+
+
+def correspondence(ctx, model_batch, refused_batch):
+    """Model/Trim.v (extracted) against ExcelCompiler.trim_graph on the same cases: the surviving cell
+    set, the cells that lost their formula, the cell values right after the trim, the outputs of every
+    assignment round on the trimmed model; and Model/Graph.v against the untrimmed compiler on the same
+    rounds (writes to buried formula cells included)."""
+    if not ctx.model:
+        return
+    calls = [trim_call(wb, ins, outs, early, rounds)
+             for (_, wb, ins, outs, early, rounds, _, _, _) in model_batch]
+    calls += [trim_call(wb, ins, outs, early, []) for (_, wb, ins, outs, early) in refused_batch]
+    calls += [('history', [wb.wire(), [op for op, _ in ops]]) for (_, wb, _, _, _, _, _, _, ops) in model_batch]
+    answers = ctx.model.batch(calls)
+    n = len(model_batch)
+    compared = dict(trim_cases=0, rounds=0, outputs=0, refused=0, untrimmed_values=0, buried_writes=0,
+                    cases_with_frozen_formula=0, cases_with_deleted_cells=0, cases_with_deleted_range=0,
+                    cases_with_kept_formula_besides_outputs=0)
+    for (case, wb, ins, outs, early, rounds, per_round, after, _), ans in zip(model_batch, answers[:n]):
+        if not isinstance(ans, list) or len(ans) != 5:
+            ctx.divergence(case, 'n/a', ans, 'Model/Trim.v trim entry rejected the input')
+            continue
+        compared['trim_cases'] += 1
+        refused, kept, frozen, snap, mrounds = ans
+        if refused != 0:
+            ctx.divergence(dict(case, early=early), 'trim_graph accepted the inputs', 'refused',
+                           'Model/Trim.v refused = trim_graph raises ValueError')
+            continue
+        mkept = [i for i, f in enumerate(kept) if f]
+        if mkept != after['kept'] or after['extra']:
+            ctx.divergence(dict(case, early=early), after['kept'] + after['extra'], mkept,
+                           'Model/Trim.v kept cells = cell_map after trim_graph')
+            continue
+        mfrozen = [i for i, f in enumerate(frozen) if f and wb.nodes[i]['kind'] == 'formula']
+        if mfrozen != after['frozen']:
+            ctx.divergence(dict(case, early=early), after['frozen'], mfrozen,
+                           'Model/Trim.v frozen formula cells = cells whose formula trim_graph removed')
+            continue
+        from harness.props.c01 import canon_model
+        msnap = {i: canon_model(dec_val(x[1])) for i, x in enumerate(snap) if x[0] == 1}
+        if any(not same(msnap[i], after['snap'][i]) for i in after['snap']):
+            diff = {i: (after['snap'][i], msnap[i]) for i in after['snap'] if not same(msnap[i], after['snap'][i])}
+            ctx.divergence(dict(case, early=early), diff, 'see impl',
+                           'Model/Trim.v cache after the trim = cell values after trim_graph')
+            continue
+        compared['cases_with_frozen_formula'] += bool(after['frozen'])
+        compared['cases_with_deleted_cells'] += len(after['kept']) < len(wb.nodes)
+        compared['cases_with_deleted_range'] += any(
+            x['kind'] == 'range' and i not in after['kept'] and any(i in wb.nodes[o]['deps'] or any(
+                i in wb.nodes[a]['deps'] for a in ancestors(wb, o)) for o in outs)
+            for i, x in enumerate(wb.nodes))
+        compared['cases_with_kept_formula_besides_outputs'] += any(
+            wb.nodes[i]['kind'] == 'formula' and i not in outs and i not in after['frozen'] for i in after['kept'])
+        for rnd, (res, mvals) in enumerate(zip(per_round, mrounds)):
+            iv = res.get('trimmed')
+            if not isinstance(iv, list):
+                continue
+            compared['rounds'] += 1
+            compared['outputs'] += len(iv)
+            mv = [model_value(x) for x in mvals]
+            if len(mv) != len(iv) or any(not same(a, b) for a, b in zip(mv, iv)):
+                ctx.divergence(dict(case, early=early, round=rnd,
+                                    assign={wb.nodes[i]['addr']: v for i, v in rounds[rnd].items()}),
+                               iv, mv, 'Model/Trim.v outputs on the trimmed machine = trimmed ExcelCompiler.evaluate')
+                break
+        compared['buried_writes'] += sum(1 for r in rounds for i in r if wb.nodes[i]['kind'] == 'formula')
+    for (case, wb, ins, outs, early), ans in zip(refused_batch, answers[n:n + len(refused_batch)]):
+        compared['refused'] += 1
+        if not isinstance(ans, list) or len(ans) != 5 or ans[0] != 1:
+            ctx.divergence(dict(case, early=early), 'ValueError', ans[0] if isinstance(ans, list) and ans else ans,
+                           'Model/Trim.v refused = trim_graph raises ValueError')
+    for (case, wb, ins, outs, early, rounds, per_round, after, ops), ans in zip(
+            model_batch, answers[n + len(refused_batch):]):
+        if not isinstance(ans, list) or (ans and not isinstance(ans[0], list)):
+            ctx.divergence(case, 'n/a', ans, 'Model/Graph.v history entry rejected the input')
+            continue
+        want = [v for res in per_round if isinstance(res.get('untrimmed'), list) for v in res['untrimmed']]
+        if len(want) != len(per_round) * len(outs):
+            continue
+        vals = [model_value(m[0]) for (op, is_out), m in zip(ops, ans) if is_out]
+        compared['untrimmed_values'] += len(vals)
+        if len(vals) != len(want) or any(not same(a, b) for a, b in zip(vals, want)):
+            ctx.divergence(dict(case, leg='untrimmed'), want, vals,
+                           'Model/Graph.v evaluate = untrimmed ExcelCompiler.evaluate (writes to formula cells included)')
+    ctx.extra['correspondence'] = compared
